@@ -215,4 +215,22 @@ theorem hlTakeOff_ok_flying (st : HStatic) (s s1 : HL) (h v : Option Q) (hok : h
       rw [hok] at this
       exact this
 
+theorem hlWith_stops (st : HStatic) (hfin : st.landFinally = true) (s s1 : HL) (body : List HPrim)
+    (hin : hlTakeOff st s none none = (s1, none)) (hbody : ∀ p ∈ body, p.isLand = false) :
+    (hlWith st s body).1.flying = false ∧ ∃ rest, (hlWith st s body).1.trace = ((hlWith st s body).1.now, HCmd.stop) :: rest := by
+  have hf1 := hlTakeOff_ok_flying st s s1 none none hin
+  have hf2 := hlBody_keeps_flying st body s1 hbody hf1
+  have hl := hlLand_stops st hfin (hlBody st s1 body).1 none none hf2
+  unfold hlWith
+  rw [hin]
+  simp only
+  cases hb : hlBody st s1 body with
+  | mk s2 eb =>
+    rw [hb] at hl
+    simp only
+    cases hland : hlLand st s2 none none with
+    | mk s3 e3 =>
+      rw [hland] at hl
+      cases e3 <;> exact hl
+
 end CfVerif.C17
